@@ -137,6 +137,10 @@ func ParsePHC(s string) (*PHC, error) {
 	// Decode salt (expect 16 bytes to fit [16]byte)
 	saltB64 := parts[3]
 	var salt [16]byte
+	if decodedLen := base64.RawStdEncoding.DecodedLen(len(saltB64)); decodedLen != len(salt) {
+		// Decoding a longer salt into the fixed-size array would write past its end (panic)
+		return nil, fmt.Errorf("invalid salt length: got %d, want %d", decodedLen, len(salt))
+	}
 	n, err := base64.RawStdEncoding.Decode(salt[:], []byte(saltB64))
 	if err != nil {
 		return nil, fmt.Errorf("invalid salt: %w", err)
